@@ -67,30 +67,68 @@ func c19a(c *Ctx) {
 		}
 	}
 	fn := c.Fn("lexer.Lexer.NextToken")
-	nsc := c.Fn("lexer.newSingleCharToken")
 	rst := c.Fn("lexer.Lexer.readStringToken")
 	rs := c.Fn("lexer.Lexer.readString")
-	if fn == nil || nsc == nil || rst == nil || rs == nil {
+	if fn == nil || rst == nil || rs == nil {
 		return
 	}
-	// A. newSingleCharToken template
+	// A. the single-character token constructor: the counters are handed in, or read from the
+	// lexer by a method — start = counter-1, end = counter, one line
+	var nsc *ssa.Function
+	nscFields := false
 	{
-		as := allocsOf(nsc, "token", "Token")
-		var f map[string]string
-		for _, r := range returnsOf(nsc) {
-			_, f = c.withFields(nsc, c.term(nsc, r.Results[0]))
-		}
-		_ = as
-		want := map[string]string{"Type": "$0", "LineNumber": "$2", "EndLineNumber": "$2", "StartCharIndex": "$3-1", "StartUtf8CharIndex": "$4-1", "EndCharIndex": "$3", "EndUtf8CharIndex": "$4"}
-		ok := f != nil
-		why := "cannot read the token built by newSingleCharToken"
-		for k, w := range want {
-			if ok && f[k] != w {
-				ok = false
-				why = fmt.Sprintf("newSingleCharToken sets %s = %s, expected %s", k, f[k], w)
+		templ := func(g *ssa.Function) (ok, fields bool, why string) {
+			var f map[string]string
+			rets := returnsOf(g)
+			if len(rets) != 1 || len(rets[0].Results) != 1 || !typeIs(rets[0].Results[0].Type(), "token", "Token") {
+				return false, false, "not a single-return token constructor"
 			}
+			_, f = c.withFields(g, c.term(g, rets[0].Results[0]))
+			if f == nil {
+				return false, false, "cannot read the token built"
+			}
+			wantP := map[string]string{"Type": "$0", "LineNumber": "$2", "EndLineNumber": "$2", "StartCharIndex": "$3-1", "StartUtf8CharIndex": "$4-1", "EndCharIndex": "$3", "EndUtf8CharIndex": "$4"}
+			wantF := map[string]string{"Type": "$1", "Literal": "conv<string>($0.ch)", "LineNumber": "$0.lineNumber", "EndLineNumber": "$0.lineNumber", "StartCharIndex": "$0.charNumber-1", "StartUtf8CharIndex": "$0.utf8CharNumber-1", "EndCharIndex": "$0.charNumber", "EndUtf8CharIndex": "$0.utf8CharNumber"}
+			for _, form := range []map[string]string{wantP, wantF} {
+				okF := true
+				for k, w := range form {
+					if f[k] != w {
+						okF = false
+						why = fmt.Sprintf("%s sets %s = %s, expected %s", g.Name(), k, f[k], w)
+					}
+				}
+				if okF {
+					return true, len(form) == len(wantF), ""
+				}
+			}
+			return false, false, why
 		}
-		c.Check(ok, "newSingleCharToken/template", c.W.FuncPos(nsc), "single-char token: start = counter-1, end = counter, one line", why)
+		why := "no single-character token constructor found"
+		if g := c.W.Func("lexer", "newSingleCharToken"); g != nil {
+			ok, fields, w := templ(g)
+			nsc, nscFields, why = g, fields, w
+			c.Check(ok, "newSingleCharToken/template", c.W.FuncPos(g), "single-char token: start = counter-1, end = counter, one line", why)
+		} else {
+			// renamed, or turned into a method: the function NextToken's ASCII arms build their token with
+			count := map[*ssa.Function]int{}
+			for _, ci := range callsIn(fn) {
+				if g := callee(ci); g != nil && c.W.InRepo(g) && g.Signature.Results().Len() == 1 && typeIs(g.Signature.Results().At(0).Type(), "token", "Token") && len(g.Blocks) == 1 {
+					count[g]++
+				}
+			}
+			for g, n := range count {
+				if nsc == nil || n > count[nsc] || (n == count[nsc] && g.Name() < nsc.Name()) {
+					nsc = g
+				}
+			}
+			if nsc == nil {
+				c.Unk("anchor:lexer.newSingleCharToken", "-", "anchored function lexer.newSingleCharToken not found (renamed or removed); the rule cannot be evaluated")
+				return
+			}
+			ok, fields, w := templ(nsc)
+			nscFields = fields
+			c.Check(ok, "newSingleCharToken/template", c.W.FuncPos(nsc), "single-char token: start = counter-1, end = counter, one line", w)
+		}
 	}
 	// dispatch block: exit of the comment loop
 	var dispatch *ssa.BasicBlock
@@ -121,36 +159,39 @@ func c19a(c *Ctx) {
 	if i := strings.Index(chT, "!"); i >= 0 {
 		v0 = chT[i+1:]
 	}
-	callsAfterDispatch := func(at ssa.Instruction) []string {
+	isReader := func(n string) bool {
+		return n == "readNumber" || n == "readHexNumber" || n == "readIdentifier" || n == "readRaw" || n == "readString" || n == "readStringToken"
+	}
+	// armEnv: where token construction sites are judged — NextToken after its dispatch, or a
+	// helper that NextToken calls, before anything is consumed, to build the token of an arm
+	type armEnv struct {
+		f      *ssa.Function
+		prefix string
+		v0     string // version of the counters when nothing of the token is consumed yet
+		inArm  func(b *ssa.BasicBlock) bool
+		armOf  func(b *ssa.BasicBlock) (int64, bool)
+		chT    string
+	}
+	callsBefore := func(e armEnv, at ssa.Instruction) []string {
 		var out []string
-		for _, ci := range callsIn(fn) {
+		for _, ci := range callsIn(e.f) {
 			in := ci.(ssa.Instruction)
-			if !dispatch.Dominates(in.Block()) || !instrDominates(in, at) {
+			if !e.inArm(in.Block()) || !instrDominates(in, at) {
 				continue
 			}
 			f := callee(ci)
 			if f == nil || !c.W.InRepo(f) || f == nsc {
 				continue
 			}
-			if c.T(fn).purity(f) >= purReadOnly {
+			if c.T(e.f).purity(f) >= purReadOnly {
 				continue // classifiers / look-ahead: consume nothing
 			}
 			out = append(out, f.Name())
 		}
 		return out
 	}
-	armOf := func(b *ssa.BasicBlock) (int64, bool) {
-		for _, l := range c.mustLits(fn, b) {
-			if strings.HasPrefix(l, "+("+chT+" == ") {
-				var n int64
-				fmt.Sscan(strings.TrimSuffix(strings.TrimPrefix(l, "+("+chT+" == "), ")"), &n)
-				return n, true
-			}
-		}
-		return 0, false
-	}
-	peekedASCII := func(b *ssa.BasicBlock) bool {
-		for _, l := range c.mustLits(fn, b) {
+	peekedASCII := func(e armEnv, b *ssa.BasicBlock) bool {
+		for _, l := range c.mustLits(e.f, b) {
 			if strings.HasPrefix(l, "+((*lexer.Lexer).peekChar($0)@") {
 				var n int64
 				i := strings.LastIndex(l, " == ")
@@ -162,115 +203,175 @@ func c19a(c *Ctx) {
 		}
 		return false
 	}
-	isReader := func(n string) bool {
-		return n == "readNumber" || n == "readHexNumber" || n == "readIdentifier" || n == "readRaw" || n == "readString" || n == "readStringToken"
-	}
-	// B. newSingleCharToken call sites
-	nCalls := 0
-	for _, call := range callsToIn(fn, nsc) {
-		nCalls++
-		a := call.Common().Args
-		arm, hasArm := armOf(call.Block())
-		key := fmt.Sprintf("NextToken/single-char[%s]", armName(arm, hasArm))
-		pos := c.W.Pos(call.Pos())
-		ok := c.term(fn, a[1]) == chT && c.term(fn, a[2]) == "$0.lineNumber!"+v0 && c.term(fn, a[3]) == "$0.charNumber!"+v0 && c.term(fn, a[4]) == "$0.utf8CharNumber!"+v0 && len(callsAfterDispatch(call.(ssa.Instruction))) == 0
-		c.Check(ok, key+"/current-position", pos, "built from the current character and counters before anything is consumed", "single-char token is not built from (l.ch, l.lineNumber, l.charNumber, l.utf8CharNumber) as they are at dispatch")
-		if hasArm && arm > 0 && arm < 128 {
-			c.OK(key+"/width", pos, "ASCII arm: the character is one byte wide")
-			continue
+	ver := func(e armEnv, field string) string {
+		if e.v0 == "" {
+			return field
 		}
-		// arbitrary character: byte start must be overridden with the previous position
-		fixed := false
-		for _, in := range call.Block().Instrs {
-			if st, isSt := in.(*ssa.Store); isSt {
-				if _, _, f, isF := fieldAddrOf(st.Addr); isF && f == "StartCharIndex" && c.term(fn, st.Val) == "$0.prevCharNumber!"+v0 && instrDominates(call.(ssa.Instruction), st) {
-					fixed = true
+		return field + "!" + e.v0
+	}
+	nCalls, nStores := 0, 0
+	var judge func(e armEnv, depth int)
+	judge = func(e armEnv, depth int) {
+		fn := e.f
+		// B. single-character constructor call sites
+		for _, call := range callsToIn(fn, nsc) {
+			if !e.inArm(call.Block()) {
+				continue
+			}
+			nCalls++
+			a := call.Common().Args
+			arm, hasArm := e.armOf(call.Block())
+			key := fmt.Sprintf("%s/single-char[%s]", e.prefix, armName(arm, hasArm))
+			pos := c.W.Pos(call.Pos())
+			ok := len(callsBefore(e, call.(ssa.Instruction))) == 0
+			if nscFields {
+				ok = ok && c.term(fn, a[0]) == "$0"
+			} else {
+				ok = ok && c.term(fn, a[1]) == e.chT && c.term(fn, a[2]) == ver(e, "$0.lineNumber") && c.term(fn, a[3]) == ver(e, "$0.charNumber") && c.term(fn, a[4]) == ver(e, "$0.utf8CharNumber")
+			}
+			c.Check(ok, key+"/current-position", pos, "built from the current character and counters before anything is consumed", "single-char token is not built from (l.ch, l.lineNumber, l.charNumber, l.utf8CharNumber) as they are at dispatch")
+			if hasArm && arm > 0 && arm < 128 {
+				c.OK(key+"/width", pos, "ASCII arm: the character is one byte wide")
+				continue
+			}
+			// arbitrary character: byte start must be overridden with the previous position
+			fixed := false
+			for _, in := range call.Block().Instrs {
+				if st, isSt := in.(*ssa.Store); isSt {
+					if _, _, f, isF := fieldAddrOf(st.Addr); isF && f == "StartCharIndex" && c.term(fn, st.Val) == ver(e, "$0.prevCharNumber") && instrDominates(call.(ssa.Instruction), st) {
+						fixed = true
+					}
 				}
 			}
+			c.Check(fixed, key+"/width", pos, "arbitrary character: byte start taken from the previous position", "a single-char token is built with start = charNumber-1 for a character whose width is not known to be 1 (multi-byte illegal characters get a wrong byte column)")
 		}
-		c.Check(fixed, key+"/width", pos, "arbitrary character: byte start taken from the previous position", "a single-char token is built with start = charNumber-1 for a character whose width is not known to be 1 (multi-byte illegal characters get a wrong byte column)")
-	}
-	// D. field stores into the token variable
-	nStores := 0
-	instrs(fn, func(in ssa.Instruction) {
-		st, ok := in.(*ssa.Store)
-		if !ok {
-			return
-		}
-		base, t, f, ok := fieldAddrOf(st.Addr)
-		if !ok || !typeIs(t, "token", "Token") {
-			return
-		}
-		if _, isAlloc := base.(*ssa.Alloc); !isAlloc {
-			return
-		}
-		if !strings.HasSuffix(f, "CharIndex") && !strings.HasSuffix(f, "LineNumber") {
-			return
-		}
-		if !dispatch.Dominates(st.Block()) {
-			return
-		}
-		nStores++
-		vt := c.term(fn, st.Val)
-		cu := parseCounter(vt)
-		arm, hasArm := armOf(st.Block())
-		key := fmt.Sprintf("NextToken/%s[%s]", f, armName(arm, hasArm))
-		pos := c.W.Pos(st.Pos())
-		if !cu.ok {
-			c.Bad(key, pos, f+" is set to "+pretty(vt)+", which is not one of the lexer's position counters")
-			return
-		}
-		calls := callsAfterDispatch(st)
-		// calls that happened before the value was read: decided by the version tag
-		readerBefore := false
-		for _, n := range calls {
-			if isReader(n) && strings.Contains(cu.tag, "c"+n+"@") {
-				readerBefore = true
+		// C. helpers that build the token of an arm: judged with the arm's width fact
+		if depth == 0 {
+			for _, ci := range callsIn(fn) {
+				g := callee(ci)
+				in := ci.(ssa.Instruction)
+				if g == nil || g == nsc || g == rst || !e.inArm(in.Block()) || !c.W.InRepo(g) || len(g.Blocks) == 0 || isReader(g.Name()) {
+					continue
+				}
+				res := g.Signature.Results()
+				if res.Len() != 1 || !typeIs(res.At(0).Type(), "token", "Token") || g.Signature.Recv() == nil {
+					continue
+				}
+				key := fmt.Sprintf("%s/helper[%s]", e.prefix, g.Name())
+				pos := c.W.Pos(ci.Pos())
+				if len(callsBefore(e, in)) != 0 || c.term(fn, ci.Common().Args[0]) != "$0" {
+					c.Bad(key+"/entered-unconsumed", pos, "the token of this arm is built by "+g.Name()+" after part of it was consumed: the helper's columns cannot be related to the arm's first character")
+					continue
+				}
+				arm, hasArm := e.armOf(in.Block())
+				judge(armEnv{
+					f:      g,
+					prefix: fmt.Sprintf("%s/%s[%s]", e.prefix, g.Name(), armName(arm, hasArm)),
+					v0:     "",
+					inArm:  func(*ssa.BasicBlock) bool { return true },
+					armOf:  func(*ssa.BasicBlock) (int64, bool) { return arm, hasArm },
+					chT:    "$0.ch",
+				}, depth+1)
 			}
 		}
-		atV0 := cu.tag == v0
-		afterOneRead := strings.HasPrefix(cu.tag, "creadChar@")
-		byteField := f == "StartCharIndex" || f == "EndCharIndex"
-		charField := f == "StartUtf8CharIndex" || f == "EndUtf8CharIndex"
-		switch {
-		case strings.HasSuffix(f, "LineNumber"):
-			c.Check(cu.fam == "line" && (f == "EndLineNumber" || atV0 || afterOneRead), key, pos, "line taken from the line counter", f+" is "+pretty(vt)+", expected the line counter (start line read before the token is consumed)")
-			return
-		case byteField && cu.fam != "char" && cu.fam != "prevchar":
-			c.Bad(key, pos, f+" (a byte column) is set from "+pretty(vt)+", which counts characters")
-			return
-		case charField && cu.fam != "utf8" && cu.fam != "prevutf8":
-			c.Bad(key, pos, f+" (a character column) is set from "+pretty(vt)+", which counts bytes")
-			return
-		}
-		isStart := strings.HasPrefix(f, "Start")
-		switch {
-		case isStart && (cu.fam == "prevchar" || cu.fam == "prevutf8"):
-			c.Check(atV0 && cu.sub == 0, key, pos, "start = position before the current character, read before consuming it", "start column "+pretty(vt)+" is read after part of the token was consumed")
-		case isStart && atV0 && cu.sub == 1:
-			okW := hasArm && arm > 0 && (arm < 128 || cu.fam == "utf8")
-			c.Check(okW, key, pos, "start = counter-1 for a character known to be one unit wide", "start column "+pretty(vt)+" subtracts 1 for a character whose width is not known to be 1")
-		case isStart && atV0 && cu.sub == 0:
-			c.Check(hasArm && arm == 0, key, pos, "end-of-input token starts at the counter", "start column "+pretty(vt)+" equals the counter although a character is being consumed")
-		case isStart && afterOneRead && cu.sub == 2:
-			okW := hasArm && arm > 0 && arm < 128 && peekedASCII(st.Block()) && len(calls) == 1
-			c.Check(okW, key, pos, "two-character token: both characters are ASCII (case arm + peeked character), one readChar in between", "start column "+pretty(vt)+" subtracts 2 without both characters being known ASCII and exactly one readChar")
-		case isStart:
-			c.Bad(key, pos, "start column "+pretty(vt)+" is not read at the token's first character")
-		case !isStart && (cu.fam == "prevchar" || cu.fam == "prevutf8"):
-			c.Check(cu.sub == 0 && !atV0, key, pos, "end = position before the lookahead character", "end column "+pretty(vt)+" is read before the token was consumed / has an offset")
-		case !isStart && readerBefore:
-			raw := hasArm && arm == 96
-			c.Check(raw, key, pos, "raw string: end is the counter after the closing backtick (excluded from the end-column clause)", "end column "+pretty(vt)+" is derived from the current-character counter after a reader loop: the current character is a lookahead of unknown width (none at end of input, several bytes for non-ASCII), use the prev* counters")
-		case !isStart && afterOneRead && cu.sub == 0:
-			c.Check(hasArm && arm > 0 && arm < 128 && peekedASCII(st.Block()), key, pos, "two-character token ends at the counter", "end column "+pretty(vt)+" for a two-character token whose characters are not known ASCII")
-		case !isStart && atV0 && cu.sub == 0:
-			c.Check(hasArm && arm == 0, key, pos, "end-of-input token ends at the counter", "end column "+pretty(vt)+" is read before the token is consumed")
-		default:
-			c.Bad(key, pos, "end column "+pretty(vt)+" does not follow the position algebra")
-		}
-	})
-	c.Check(nCalls >= 16 && nStores >= 60, "NextToken/sites", c.W.FuncPos(fn), fmt.Sprintf("%d single-char sites, %d position stores", nCalls, nStores), fmt.Sprintf("found %d single-char sites and %d position stores, expected at least 16 and 60", nCalls, nStores))
+		// D. field stores into the token variable
+		instrs(fn, func(in ssa.Instruction) {
+			st, ok := in.(*ssa.Store)
+			if !ok {
+				return
+			}
+			base, t, f, ok := fieldAddrOf(st.Addr)
+			if !ok || !typeIs(t, "token", "Token") {
+				return
+			}
+			if _, isAlloc := base.(*ssa.Alloc); !isAlloc {
+				return
+			}
+			if !strings.HasSuffix(f, "CharIndex") && !strings.HasSuffix(f, "LineNumber") {
+				return
+			}
+			if !e.inArm(st.Block()) {
+				return
+			}
+			nStores++
+			vt := c.term(fn, st.Val)
+			cu := parseCounter(vt)
+			arm, hasArm := e.armOf(st.Block())
+			key := fmt.Sprintf("%s/%s[%s]", e.prefix, f, armName(arm, hasArm))
+			pos := c.W.Pos(st.Pos())
+			if !cu.ok {
+				c.Bad(key, pos, f+" is set to "+pretty(vt)+", which is not one of the lexer's position counters")
+				return
+			}
+			calls := callsBefore(e, st)
+			// calls that happened before the value was read: decided by the version tag
+			readerBefore := false
+			for _, n := range calls {
+				if isReader(n) && strings.Contains(cu.tag, "c"+n+"@") {
+					readerBefore = true
+				}
+			}
+			atV0 := cu.tag == e.v0
+			afterOneRead := strings.HasPrefix(cu.tag, "creadChar@")
+			byteField := f == "StartCharIndex" || f == "EndCharIndex"
+			charField := f == "StartUtf8CharIndex" || f == "EndUtf8CharIndex"
+			switch {
+			case strings.HasSuffix(f, "LineNumber"):
+				c.Check(cu.fam == "line" && (f == "EndLineNumber" || atV0 || afterOneRead), key, pos, "line taken from the line counter", f+" is "+pretty(vt)+", expected the line counter (start line read before the token is consumed)")
+				return
+			case byteField && cu.fam != "char" && cu.fam != "prevchar":
+				c.Bad(key, pos, f+" (a byte column) is set from "+pretty(vt)+", which counts characters")
+				return
+			case charField && cu.fam != "utf8" && cu.fam != "prevutf8":
+				c.Bad(key, pos, f+" (a character column) is set from "+pretty(vt)+", which counts bytes")
+				return
+			}
+			isStart := strings.HasPrefix(f, "Start")
+			switch {
+			case isStart && (cu.fam == "prevchar" || cu.fam == "prevutf8"):
+				c.Check(atV0 && cu.sub == 0, key, pos, "start = position before the current character, read before consuming it", "start column "+pretty(vt)+" is read after part of the token was consumed")
+			case isStart && atV0 && cu.sub == 1:
+				okW := hasArm && arm > 0 && (arm < 128 || cu.fam == "utf8")
+				c.Check(okW, key, pos, "start = counter-1 for a character known to be one unit wide", "start column "+pretty(vt)+" subtracts 1 for a character whose width is not known to be 1")
+			case isStart && atV0 && cu.sub == 0:
+				c.Check(hasArm && arm == 0, key, pos, "end-of-input token starts at the counter", "start column "+pretty(vt)+" equals the counter although a character is being consumed")
+			case isStart && afterOneRead && cu.sub == 2:
+				okW := hasArm && arm > 0 && arm < 128 && peekedASCII(e, st.Block()) && len(calls) == 1
+				c.Check(okW, key, pos, "two-character token: both characters are ASCII (case arm + peeked character), one readChar in between", "start column "+pretty(vt)+" subtracts 2 without both characters being known ASCII and exactly one readChar")
+			case isStart:
+				c.Bad(key, pos, "start column "+pretty(vt)+" is not read at the token's first character")
+			case !isStart && (cu.fam == "prevchar" || cu.fam == "prevutf8"):
+				c.Check(cu.sub == 0 && !atV0, key, pos, "end = position before the lookahead character", "end column "+pretty(vt)+" is read before the token was consumed / has an offset")
+			case !isStart && readerBefore:
+				raw := hasArm && arm == 96
+				c.Check(raw, key, pos, "raw string: end is the counter after the closing backtick (excluded from the end-column clause)", "end column "+pretty(vt)+" is derived from the current-character counter after a reader loop: the current character is a lookahead of unknown width (none at end of input, several bytes for non-ASCII), use the prev* counters")
+			case !isStart && afterOneRead && cu.sub == 0:
+				c.Check(hasArm && arm > 0 && arm < 128 && peekedASCII(e, st.Block()), key, pos, "two-character token ends at the counter", "end column "+pretty(vt)+" for a two-character token whose characters are not known ASCII")
+			case !isStart && atV0 && cu.sub == 0:
+				c.Check(hasArm && arm == 0, key, pos, "end-of-input token ends at the counter", "end column "+pretty(vt)+" is read before the token is consumed")
+			default:
+				c.Bad(key, pos, "end column "+pretty(vt)+" does not follow the position algebra")
+			}
+		})
+	}
+	judge(armEnv{
+		f:      fn,
+		prefix: "NextToken",
+		v0:     v0,
+		inArm:  func(b *ssa.BasicBlock) bool { return dispatch.Dominates(b) },
+		armOf: func(b *ssa.BasicBlock) (int64, bool) {
+			for _, l := range c.mustLits(fn, b) {
+				if strings.HasPrefix(l, "+("+chT+" == ") {
+					var n int64
+					fmt.Sscan(strings.TrimSuffix(strings.TrimPrefix(l, "+("+chT+" == "), ")"), &n)
+					return n, true
+				}
+			}
+			return 0, false
+		},
+		chT: chT,
+	}, 0)
+	c.Check(nCalls >= 10 && nStores >= 40, "NextToken/sites", c.W.FuncPos(fn), fmt.Sprintf("%d single-char sites, %d position stores", nCalls, nStores), fmt.Sprintf("found %d single-char sites and %d position stores; 16 and 60 were confirmed by hand", nCalls, nStores))
 	// E. readStringToken: start at the opening quote
 	{
 		var f map[string]string
@@ -349,7 +450,14 @@ func c19b(c *Ctx) {
 	}
 	type row struct{ field, value, guard, label string }
 	sizePhi := ""
+	var sizeV ssa.Value
 	for _, st := range storesToField(fn, "lexer", "Lexer", "readPosition") {
+		if bo, ok := st.Val.(*ssa.BinOp); ok {
+			sizeV = bo.Y
+			if strings.HasPrefix(c.term(fn, bo.Y), "$0.readPosition") {
+				sizeV = bo.X
+			}
+		}
 		v := c.term(fn, st.Val)
 		if i := strings.Index(v, " + "); i > 0 {
 			sizePhi = strings.Trim(v[:i], "(")
@@ -398,24 +506,35 @@ func c19b(c *Ctx) {
 	}
 	c.Check(okAdv && okU, "readChar/advance", c.W.FuncPos(fn), "byte column grows by the decoded width, char column by one iff a character was read", "readChar does not advance (charNumber += width, utf8CharNumber++ iff width > 0)")
 	// the newline test uses the previous character
-	c.Check(strings.HasPrefix(sizePhi, "phi("), "readChar/width-is-decoded-size", c.W.FuncPos(fn), "width is 0 at end of input, else the decoded size", "cannot identify the decoded width")
+	// the width (chosen in place, or by a decoding helper): 0 at end of input, else the decoded size
+	const inInput, atEnd = "+($0.readPosition < builtin:len($0.input))", "-($0.readPosition < builtin:len($0.input))"
+	const decoded = "unicode/utf8.DecodeRuneInString($0.input[$0.readPosition:])#"
+	okWidth, eofRead := sizeV != nil, false
+	sawZero := false
+	if sizeV != nil {
+		for _, a := range c.resultAlts(fn, sizeV) {
+			switch {
+			case a.term == decoded+"1" && hasLit(a.must, inInput):
+				eofRead = true
+			case a.term == "0" && hasLit(a.must, atEnd):
+				sawZero = true
+			default:
+				okWidth = false
+			}
+		}
+	}
+	c.Check(okWidth && eofRead && sawZero, "readChar/width-is-decoded-size", c.W.FuncPos(fn), "width is 0 at end of input, else the decoded size", "cannot identify the decoded width")
 	// end-of-input test agrees
-	eofRead := false
-	for _, ci := range callsNamed(fn, "unicode/utf8.DecodeRuneInString") {
-		if hasLit(c.mustLits(fn, ci.Block()), "+($0.readPosition < builtin:len($0.input))") {
-			eofRead = true
-		}
-	}
-	eofPeek := false
+	eofPeek, okDecode := false, false
 	for _, r := range returnsOf(pk) {
-		if c.term(pk, r.Results[0]) == "0" && hasLit(c.mustLits(pk, r.Block()), "-($0.readPosition < builtin:len($0.input))") {
-			eofPeek = true
-		}
-	}
-	okDecode := false
-	for _, ci := range callsNamed(pk, "unicode/utf8.DecodeRuneInString") {
-		if c.term(pk, ci.Common().Args[0]) == "$0.input[$0.readPosition:]" && hasLit(c.mustLits(pk, ci.Block()), "+($0.readPosition < builtin:len($0.input))") {
-			okDecode = true
+		for _, a := range c.resultAlts(pk, r.Results[0]) {
+			must := append(append([]string{}, a.must...), c.mustLits(pk, r.Block())...)
+			if a.term == "0" && hasLit(must, atEnd) {
+				eofPeek = true
+			}
+			if a.term == decoded+"0" && hasLit(must, inInput) {
+				okDecode = true
+			}
 		}
 	}
 	c.Check(eofRead, "readChar/end-of-input", c.W.FuncPos(fn), "a character is decoded exactly when readPosition < len(input)", "readChar's end-of-input test is not readPosition < len(input)")
